@@ -51,7 +51,8 @@ MODELLED = [
     "InversionMethod: Model/Inversion.v over an abstract enumeration; 1-d: z1d_project (C14) with the implementation's max_frontier_indices fed as data and inside = in the grid; 2-d: zd2_project szudzik, inside = in the box, probability table as data",
     "the factory: create_vec_jump_matrix and the `states` map in Model/Factory.v (tied exactly)",
     "wave 6 -- REGENERATED from the source and linked by theorem: BinarySearchTree.sample_with_u (the `while ptr <= self.K` descent) is translated on every run by the TIE translator (harness/specs/TIE.py + harness/py2coq_loops.py -> Gen/GenTieBst.v, in GEN_DEPS: a source outside the subset breaks the check) and C02_gen_bst_sample_with_u_is_model (Proofs/Tie_Bst.v) proves the generated definition equal to the hand model bst_sample for every K, array and uniform; C02_gen_bst_law restates the law on the generated descent. Likewise AliasMethod._draw_with_u (Gen/GenTieAlias.v, np.uint read as Qfloor = numpy's truncation for K u >= 0; Python ints Z vs nat in the hand model): C02_gen_alias_draw_with_u_is_model (Proofs/Tie_Alias.v, for u >= 0) and C02_gen_alias_law. All other sampler kernels (constructors, Huffman, table, inversion, adapted trees) remain hand models tied by the correspondence",
-    "wave 6 -- n-d INVERSION of the factory with the frontier deque inside the model: Model/InversionFrontierNd.v (states = lists of d integers, enumeration sznd_project = PairingToZd over (nested) Szudzik, frnd / maxfnd = the deque and max_frontier_indices computed by Model/Domain.v dom_nd / dom_maxf with Boundary(), outsidend = outside the box); tied exactly on 2-d chains: the implementation's deque IN ORDER, max_frontier_indices, every draw with a scripted position of np.random.choice, whether np.random.choice was called, the final cumulative sums and the StatesManager state. d >= 3 (the factory switches to Rosenberg-Strong there) stays on the oracle",
+    "wave 6 -- n-d INVERSION of the factory with the frontier deque inside the model: Model/InversionFrontierNd.v (states = lists of d integers, enumeration sznd_project = PairingToZd over (nested) Szudzik, frnd / maxfnd = the deque and max_frontier_indices computed by Model/Domain.v dom_nd / dom_maxf with Boundary(), outsidend = outside the box); tied exactly on 2-d chains: the implementation's deque IN ORDER, max_frontier_indices, every draw with a scripted position of np.random.choice, whether np.random.choice was called, the final cumulative sums and the StatesManager state. NOTE (audit 5a B11): nested Szudzik is the factory's enumeration for d = 2 ONLY",
+    "wave 8 -- Model/InversionFrontierFactory.v: the enumeration the factory REALLY picks (create_sampling_inversion_method: Szudzik iff model.dimension() == 2, RosenbergStrong otherwise): rsnd_pair / rsnd_project = PairingToZd over rs_pairing / rs_projection (Model/Pairing.v, C14), fac_pair d / fac_project d = the branch on the dimension, frfac / maxffac = deque and max_frontier_indices of Model/Domain.v with that pairing and Boundary(); tied exactly on 3-d table-copula chains (group inversion3d: the check first asserts that the live pairing object is a RosenbergStrong, then the implementation's deque IN ORDER, max_frontier_indices, every draw of a scripted history with uniforms below and above the sum and a scripted position of np.random.choice, whether it was called, the final sums and the StatesManager state, default and small _max_storage); rounded n-d tables (intensity 3 / 5 / 7, d = 2 and 3) only through the implementation oracle",
     "wave 6 -- BinarySearchTreeAdapted in d = 3: Model/BstAdaptedNd.v tied exactly on 3-d density-table chains (harness/c01_table3.py TableN + its Levy copula through LevyCopulaModel._mass_3d): 26 buckets (0, 6 or 12 cached depending on the shape), bisection cycling over 3 axes, bucket lists and cached flags compared too",
     "wave 7 -- float runs of INVERSION: with prob := the increments of the floats stored in _cumulative_probabilities the model's partial sums ARE the stored floats (every comparison of the sampler is with these floats), so inv_step_f reproduces a float run exactly; tied on factory chains with rounded probabilities (intensity 3, 5, 7; interior and EDGE-origin axes) by group inversion_floatinc. Edge-origin axes (L = 0 or R = 0) are also in inversion_direct (exact tables) -- they are NOT driven through `chains` because BinarySearchTreeAdapted1D does not terminate for u = 0.0 on an axis with L = 0 (left half axis (0, -1): `while left != right` never ends; observed, not recorded as a finding: same class as F-C02-6, u = 0.0 only)",
     "float arithmetic: theorems are over Q with exact-sum hypotheses (sum p = 1, u < sum p) that float vectors meet only up to rounding (e.g. sums 0.9999999999999998); exact agreement is checked on dyadic inputs where every float operation of the samplers is exact, incl. vectors whose sum is deliberately off 1; non-dyadic vectors and intensities by the oracle with tolerance 1e-9",
@@ -60,7 +61,7 @@ MODELLED = [
 ASSUMPTIONS = [
     "probability vector entries are >= 0 (zeros and ties allowed), length >= 1; uniforms 0 <= u < sum p (alias, table: sum p = 1)",
     "C02_inversion_admissible: unconditional in the enumeration (any inadmissible indices, any number of restarts; StatesManager half = C14 sm_step_protocol on the tree repaired by a073fcb); prob >= 0 (the factory clips with max(.,0)), _max_storage >= 1, F >= 0. In C02_inversion_admissible the random frontier state drawn on exhaustion (u above the sum) is the symbol Frontier; C02_inversion_frontier_law resolves it",
-    "C02_inversion_frontier_law: same hypotheses, ANY deque fr and any position c; part (3) needs sigma <= 1 (sum of the admissible probabilities: 1 in exact arithmetic, below 1 after rounding); part (5) needs every index of the deque admissible -- proved for the 1-d factory grid with an interior origin (C02_inversion_frontier_1d / _1d_law, 0 < L, 0 < R) and FALSE on an edge-origin axis (L = 0 or R = 0: F-C02-14, C02_inversion_frontier_edge_origin_refuted; no library constructor builds such a grid, the public CTMCGrid accepts it); and (wave 6) for the n-d factory grid with nested Szudzik (C02_inversion_frontier_nd: all_sizes <> [], sizes > 0, 0 < o < last_size - 1, Boundary()); for a custom Domain (RectangleBoundary: the deque can hold the index of the origin, audit D13 = F-C14-8) it is NOT proved -- the factory hard-codes Boundary(); the Rosenberg-Strong enumeration the factory uses for d >= 3 has the C14 half (C14_frontier_draw_factory) but is not composed with the C02 law (3-d: oracle)",
+    "C02_inversion_frontier_law: same hypotheses, ANY deque fr and any position c; part (3) needs sigma <= 1 (sum of the admissible probabilities: 1 in exact arithmetic, below 1 after rounding); part (5) needs every index of the deque admissible -- proved for the 1-d factory grid with an interior origin (C02_inversion_frontier_1d / _1d_law, 0 < L, 0 < R) and FALSE on an edge-origin axis (L = 0 or R = 0: F-C02-14, C02_inversion_frontier_edge_origin_refuted; no library constructor builds such a grid, the public CTMCGrid accepts it); and (wave 6) for the n-d grid with nested Szudzik (C02_inversion_frontier_nd: all_sizes <> [], sizes > 0, 0 < o < last_size - 1, Boundary(); the factory's enumeration for d = 2 only) and (wave 8) for the enumeration the factory really picks in every d >= 2, Rosenberg-Strong for d >= 3 (C02_inversion_frontier_factory / _factory_law, same hypotheses; the origin-not-on-the-edge hypothesis is necessary: frnd [3;3] 0 holds the index of the origin); for a custom Domain (RectangleBoundary: the deque can hold the index of the origin, audit D13 = F-C14-8) it is NOT proved -- the factory hard-codes Boundary(); the model uses ONE origin index o on every axis, as Domain does (grid.origin_coordinate of a CTMCGrid is one integer)",
     "C02_bstadapted1d_law: mass additive and non-negative on ordered intervals (closed forms: C09), cell boundaries ordered (C13), left-tail mass = mass of the left axis cells (truncation, C01), lambda > 0, a point on each side of the origin; C02_bstadapted1d_cache_history_free: mass is a function of the values of its arguments, eviction only drops entries",
     "C02_bstadaptednd_*: the box mass bm is non-negative and additive under the split of one axis (C12 for the copula rectangle mass), coordinates in [0, B)",
     "right-closed samplers (INVERSION, BSTADAPTED 1-d/n-d): 'never a zero-probability state' is proved for u > 0 only; u = 0 is the recorded finding F-C02-6 (C02_*_zero_uniform_refuted)",
@@ -87,13 +88,14 @@ THEOREM_NOTES = {
     "C02_inversion_frontier_zero_prob_run_refuted": "wave 7 (audit: the older witness is a hand-made table): F-C02-13 on the float run of its recorded witness (masses 0, 1, 1, 0, 1/4, 17/4, 1/2), fz_prob_run = increments of the stored float sums",
     "C02_gen_bst_sample_with_u_is_model / C02_gen_bst_law": "wave 6 (TIE): the definition py2coq regenerates from binarysearchtree.py on every run equals the hand model (induction on the fuel; the fuel K + 1 always suffices); the BST law, range and never-zero-probability restated on the generated descent. Example C02_gen_bst_nonvacuous runs the generated loop",
     "C02_gen_alias_draw_with_u_is_model / C02_gen_alias_law": "wave 6 (TIE2): the regenerated _draw_with_u equals Z.of_nat (alias_draw ..) for every K, q, J and u >= 0 (the lemma carries 0 <= u because np.uint truncates and Qfloor floors); C02_alias_law (lengths p_k, draw = locate on the columns, index in [0,K), never a zero-probability state) restated on the generated draw run on the constructor model's tables. Example C02_gen_alias_nonvacuous",
-    "C02_inversion_frontier_nd": "wave 6, full for the factory's n-d grid with (nested) Szudzik, any d >= 2, any axis sizes > 0, origin not on the edge of the last axis, Boundary(): every index of the REAL deque dom_nd computes is an admissible index in [0, max_frontier_indices] (0 <= index because the projected state is not the origin; index <= dom_maxf by the max; in the box by C14_frontier_draw_factory), the deque is non-empty, position c projects to the first/last point of a line along the last axis: in the grid, never the origin",
+    "C02_inversion_frontier_factory / C02_inversion_frontier_factory_law": "wave 8 (audit 5a B11), full for the enumeration the factory picks by dimension (fac_project d: Szudzik iff d = 2, Rosenberg-Strong otherwise), any d >= 2, sizes > 0, 0 < o < last_size - 1, Boundary(): the statements of C02_inversion_frontier_nd / _nd_law with fac_project / frfac / maxffac. Proved by redoing the wave-6 argument once for ANY n-d pairing satisfying the four inversion facts (Section FrontierAnyPairing: project(pair xs) = xs, pair(project z) = z, pair >= 0, pair(0..0) = 0), instantiating it with the C14 theorems on Rosenberg-Strong, and a case split on d = 2 (that branch is the wave-6 theorem). So the d >= 3 half is a new composition (C14 frontier_draw_admissible + C02_inversion_frontier_law), the d = 2 half a transported older theorem. Examples: C02_szudzik_is_not_the_factory_3d (the two enumerations differ from index 1 on in d = 3), C02_inversion_frontier_factory_nonvacuous (3 x 3 x 4 grid: 18-entry deque, 35 admissible indices, exhausted draws). Not covered: grids whose axes have different origin indices (the code has one), custom Domains",
+    "C02_inversion_frontier_nd": "wave 6, full for the n-d grid enumerated by (nested) Szudzik -- the factory's enumeration for d = 2 ONLY (for d >= 3 the factory uses Rosenberg-Strong: see C02_inversion_frontier_factory; audit 5a B11) --, any d >= 2, any axis sizes > 0, origin not on the edge of the last axis, Boundary(): every index of the REAL deque dom_nd computes is an admissible index in [0, max_frontier_indices] (0 <= index because the projected state is not the origin; index <= dom_maxf by the max; in the box by C14_frontier_draw_factory), the deque is non-empty, position c projects to the first/last point of a line along the last axis: in the grid, never the origin",
     "C02_inversion_frontier_nd_law": "wave 6, full: C02_inversion_frontier_law composed with the above -- any probability table >= 0, any _max_storage >= 1, any history, any u, any position c < len(deque): the state returned is in the grid and not the origin; u <= sigma: the admissible state of the right-closed step function (interval length = its probability); u > sigma: EXACTLY project(deque[c]), on the frontier. Example C02_inversion_frontier_nd_nonvacuous: the 5 x 5 deque (10 entries, 24 admissible indices), a 4 x 4 x 4 deque (32 entries), a history with storage 3 taking the frontier draw twice",
     "C02_inversion_frontier_zero_prob_refuted": "F-C02-13 on the faithful model, HAND-MADE table (the float run of the recorded witness: C02_inversion_frontier_zero_prob_run_refuted): probabilities summing to 1 - 2^-52 with p(-3) = 0, u = 1 - 2^-53, position 1 -> state -3 (vm_compute witness); on the implementation the deficit comes from rounding rate/intensity (intensity 7)",
     "C02_inversion_zero_uniform_refuted / C02_bstadapted1d_zero_uniform_refuted": "vm_compute witnesses of F-C02-6 on the faithful models",
     "C02_inversion_overflow_orig / C02_inversion_overflow_repaired": "Examples: the historical witness of F-C02-7 = F-C14-6 on the ORIGINAL model (Model/InversionOrig.v) and the same instance on the repaired model (answers state 3 with storage 1, 2, 10^6)",
 }
-LEVEL_TEXT = ("Proof: 25 positive Coq theorems (closed under the global context, no axioms) state, for ALL probability vectors of any length "
+LEVEL_TEXT = ("Proof: 27 positive Coq theorems (closed under the global context, no axioms) state, for ALL probability vectors of any length "
               ">= 1 with zeros and ties, that BinarySearchTree, HuffmanTree, AliasMethod and TableMethod are step functions of the uniform "
               "whose intervals labelled k have total length exactly p_k (constructors total, indices in range, zero-probability states and, "
               "through the factory's vector and states map, the origin never returned); TableMethod also as the code consumes ONE 32-bit "
@@ -103,7 +105,7 @@ LEVEL_TEXT = ("Proof: 25 positive Coq theorems (closed under the global context,
               "model (np.random.choice = an explicit position c of the deque): the draw is taken iff u exceeds the sum sigma of the admissible "
               "probabilities (never for u <= 1 in exact arithmetic), for sigma <= 1 the sampler is the step function with one more interval "
               "(sigma, 1] labelled frontier[c], the deficit 1 - sigma goes to the frontier indices in proportion to their multiplicity, and on the "
-              "factory's 1-d grid WITH AN INTERIOR ORIGIN (0 < L, 0 < R: every grid a library constructor builds) the real deque dom_1d is inside the statement (C02_inversion_frontier_1d_law: any table, storage, history, u, position c: an in-grid non-origin state; u > sigma: exactly R for c = 0, -L for c = 1); on an EDGE-origin axis (L = 0 or R = 0, accepted by the public CTMCGrid + MarkovChainProcess) 'never the origin' is REFUTED (F-C02-14, audit 4 D1): the deque holds pair(0) = -1 whose projection is the increment 0, for every table, history and uniform above the sum (C02_inversion_frontier_edge_origin_refuted; witness on the float run of /repo: intensity 7, float sum 1 - 2^-52, u = 1 - 2^-53); (wave 6) on the factory's n-d grid (Szudzik, d >= 2) the REAL deque dom_nd computes holds admissible indices only, so every draw returns an in-grid non-origin state and, when u exceeds sigma, exactly project(deque[c]), an end point of a line of the box; (wave 6) the BinarySearchTree descent and AliasMethod._draw_with_u are REGENERATED from the source by py2coq on every run and proved equal to the hand models (the laws are restated on the generated definitions); BinarySearchTreeAdapted1D is "
+              "factory's 1-d grid WITH AN INTERIOR ORIGIN (0 < L, 0 < R: every grid a library constructor builds) the real deque dom_1d is inside the statement (C02_inversion_frontier_1d_law: any table, storage, history, u, position c: an in-grid non-origin state; u > sigma: exactly R for c = 0, -L for c = 1); on an EDGE-origin axis (L = 0 or R = 0, accepted by the public CTMCGrid + MarkovChainProcess) 'never the origin' is REFUTED (F-C02-14, audit 4 D1): the deque holds pair(0) = -1 whose projection is the increment 0, for every table, history and uniform above the sum (C02_inversion_frontier_edge_origin_refuted; witness on the float run of /repo: intensity 7, float sum 1 - 2^-52, u = 1 - 2^-53); (wave 6 / wave 8) on the factory's n-d grid, d >= 2, with the enumeration the factory really picks (Szudzik for d = 2, Rosenberg-Strong for d >= 3: C02_inversion_frontier_factory_law; the older C02_inversion_frontier_nd_law is nested Szudzik in every d, which is the factory's sampler for d = 2 only) and WITH THE ORIGIN NOT ON THE EDGE OF THE LAST AXIS (0 < o < last_size - 1, i.e. 0 < L and 0 < R there; necessary: otherwise the deque holds the index of the origin, as in 1-d) the REAL deque dom_nd computes holds admissible indices only, so every draw returns an in-grid non-origin state and, when u exceeds sigma, exactly project(deque[c]), an end point of a line of the box along the last axis; (wave 6) the BinarySearchTree descent and AliasMethod._draw_with_u are REGENERATED from the source by py2coq on every run and proved equal to the hand models (the laws are restated on the generated definitions); BinarySearchTreeAdapted1D is "
               "the right-closed step function of the cell masses for any additive mass; the n-d BinarySearchTreeAdapted on the real bucket "
               "list of _pre_computation (cached axis vectors and axis-cycling bisection, which terminates) gives every non-origin cell of "
               "the grid exactly bm(cell), never the origin. History: the 1-d and n-d lru caches are proved to be harmless READ caches for any "
@@ -119,7 +121,7 @@ LEVEL_TEXT = ("Proof: 25 positive Coq theorems (closed under the global context,
               "vs single uniform with lowered storage, same array twice, two orders, float sums below 1 with the frontier choice scripted; (wave 7) every SamplingMethod through MarkovChainProcess on real HEM / Merton / VG models, plain and as ExponentialOf*Model, on grids cutting real tail mass on both sides: realised law by exact integration against cell mass / intensity of the TRUNCATED measure from closed forms written in the harness, 1e-7 (catches seeded C02_i: a wrapper whose mass() answers with the un-truncated measure); every direct sampler "
               "built from ONE float64 ndarray that must stay bit-identical through constructors and draws). Float rounding for non-dyadic "
               "inputs is outside the theorems: sigma in the frontier theorems is the EXACT sum of the function prob, not a rounded sum; a float run is covered by reading prob as the INCREMENTS of the floats InversionMethod stores (s_0 = p_0, s_{k+1} = fl(s_k + p_{k+1}); the sampler compares u with these floats only), then the model's sums are the stored floats and sigma is the stored float sum -- this reading is checked on every run on factory chains with intensity 3, 5, 7 (group inversion_floatinc: every state incl. the frontier draws and the origin on edge-origin axes, the final sums, the StatesManager state), but the relation between the increments and rate/intensity (each within len * 2^-53) is float arithmetic and not proved; C02_inversion_frontier_law itself is parametric in the deque and in F (the real deque is in the _1d_law / _nd_law / _edge_ instances); the distribution of "
-              "np.random.choice over the positions of the deque is numpy's and is not modelled; the 2-d frontier deque is tied exactly (order, max index, every scripted position), the 3-d one (Rosenberg-Strong) only by the oracle; the n-d tree is tied exactly in d = 2 and (wave 6) d = 3 on density tables with arbitrary dyadic cell masses.")
+              "np.random.choice over the positions of the deque is numpy's and is not modelled; the 2-d (Szudzik) and, wave 8, the 3-d (Rosenberg-Strong) frontier deques are tied exactly (order, max index, every scripted position; 3-d on table-copula chains with dyadic masses), and on rounded n-d tables (intensity 3 / 5 / 7, d = 2, 3) the exhaustion path of the float run is observed by the implementation oracle only (frontier draw iff u > float sum, state = project(deque[c]), all end points given positive mass); the n-d tree is tied exactly in d = 2 and (wave 6) d = 3 on density tables with arbitrary dyadic cell masses.")
 LEVEL_NOTE = ("Trusted: Coq kernel + vm_compute; hand-written models (lists for arrays/deques, floor for np.uint, stable insertion sort for "
               "list.sort, bisect_left loop, cumsum/searchsorted on sorted arrays) tied by exact comparison on dyadic inputs; Q arithmetic "
               "stands for float arithmetic (exact on the dyadic inputs compared; non-dyadic inputs only by the oracle with tolerance 1e-9); "
@@ -2054,6 +2056,157 @@ def chain_3d_table(res, rng, groups, viol):
     groups.append(("ndbuckets3d", "nat * Z * Z * list (list (Z * Z)) * list bool", "chk_buckets", g_bk))
 
 
+def chain_nd_inversion_factory(res, groups, viol):
+    """wave 8 (audit 5a B11 / A1): the n-d INVERSION sampler of the factory with the enumeration the factory REALLY picks
+    (Szudzik for d = 2, Rosenberg-Strong for d = 3: Model/InversionFrontierFactory.v fac_project / frfac / maxffac), tied EXACTLY in
+    d = 3 on density tables with dyadic cell masses and intensity 1: the implementation's deque IN ORDER, max_frontier_indices, every
+    draw of a scripted history (uniforms below the sum and above it, position of np.random.choice scripted, was it called?), the
+    final cumulative sums and the StatesManager state, for the default and for small _max_storage.
+    Second part, implementation-only oracle on ROUNDED probabilities (intensity 3, d = 2 and d = 3, every end point of a line along
+    the last axis has positive mass): for u = 1 - 2^-53 and every position c of the deque the frontier draw is taken iff u exceeds the
+    float sum, and the state is project(deque[c]): in the grid, not the origin, of positive probability.  Own random stream."""
+    import itertools
+    from rpylib.distribution.sampling import SamplingMethod as SM
+    from rpylib.distribution import pairing as P
+    rng = random.Random(res.seed * 7919 + 18)
+    tier = res.tier
+    name = "INVERSION-3d"
+    zl = lambda st_: lst([zlit(int(v_)) for v_ in st_])
+    g_fac = []
+    shapes = [(0.5, 1, 1), (0.5, 1, 2), (0.5, 2, 2)] if tier == "quick" else [(0.5, 1, 1), (0.5, 1, 2), (0.5, 2, 2), (0.5, 2, 1), (0.25, 3, 3), (0.5, 2, 3)]
+    for (h, L, R), variant in itertools.product(shapes, ("generic", "sparse")):
+        n = L + R + 1
+        if tier == "quick" and n >= 5 and variant == "sparse":
+            continue                                         # quick tier: the 5 x 5 x 5 grid once (a pass over its 124 states costs ~1 s)
+        tot = 1 << 8
+        cells = [c for c in itertools.product(range(n), repeat=3) if c != (L, L, L)]
+        ints = _composition(rng, tot, len(cells), zero_frac=0.0 if variant == "generic" else 0.6)
+        mass = {c: Fr(v, tot) for c, v in zip(cells, ints)}
+        ctx = dict(sampler=name, copula="table3", h=h, left=L, right=R, masses=[[c[0] - L, c[1] - L, c[2] - L, str(m)] for c, m in mass.items() if m])
+        mk = lambda: build_table_chain_nd(h, L, R, mass, SM.INVERSION)[0].sampling
+        try:
+            s = mk()
+        except Exception as e:  # noqa
+            viol(f"factory raises {type(e).__name__} for a 3-d table-copula chain with SamplingMethod.INVERSION", error=str(e)[:200], **ctx)
+            continue
+        pz = s.state_manager.pairing
+        if not isinstance(pz.n_pairing, P.RosenbergStrong):
+            res.broke("factory pairing in d = 3", f"{type(pz.n_pairing).__name__} is not RosenbergStrong: Model/InversionFrontierFactory.v fac_pair no longer follows the code")
+            continue
+        res.bump("inversion3d", f"[-{L},{R}]^3 {variant}")
+        target = {tuple(c_ - L for c_ in c): m for c, m in mass.items()}
+        # a draw with a small _max_storage recomputes the probabilities up to the state it returns (3-d table masses: ~1 s to the top of
+        # 124 states): small storages on the 3 x 3 x 3 grids (quick), short sequences on the larger ones
+        storages = [None] + (([2, 7] if n == 3 else [7] if n == 4 and variant == "generic" else []) if tier == "quick" else ([1, 2, 7, 20] if n <= 4 else [7]))
+        for M in storages:
+            nrand = rng.choice([6, 14]) if M is None or n == 3 else 2
+            seq = [rng.randrange(0, 1 << 30) / (1 << 30) for _ in range(nrand)] + ([0.875 + k / 64 for k in range(4)] if M is None or n == 3 else []) + [0.0, ulp_down(1.0), 1.0]
+            for extra_u in (1.25, 1.0625, 1.0 + 2.0 ** -40):          # above the sum: exhaustion, random frontier state
+                seq.insert(rng.randrange(len(seq) + 1), extra_u)
+            fr_len = len(s.state_manager.frontier_states_indices)
+            cs = [rng.randrange(fr_len) for _ in seq]
+            outs, rows, smp0 = [], [], None
+            for order in (list(range(len(seq))), rng.sample(range(len(seq)), len(seq))):
+                s2 = mk()
+                if M is not None:
+                    s2._max_storage = M
+                got = {}
+                with ScriptedChoice() as ch:
+                    for i in order:
+                        ch.c, before = cs[i], ch.calls
+                        got[i] = tuple(int(x) for x in s2.sample_with_u(seq[i]))
+                        called = ch.calls > before
+                        if not outs:
+                            rows.append((seq[i], cs[i], called, got[i]))
+                        res.count(("hist-3d", name, h, L, R, variant, M, seq[i], len(got)), kind=f"{name} sequence (Rosenberg-Strong deque in the model)")
+                        if called != (seq[i] > 1.0):
+                            viol(f"{name}: the frontier draw is (not) taken although the uniform is (not) above the sum of the probabilities",
+                                 u=seq[i], got=list(got[i]), choice_called=called, max_storage=M, **ctx)
+                        if seq[i] > 1.0:
+                            fr_idx = [int(ix) for ix in s2.state_manager.frontier_states_indices]
+                            want = tuple(int(c_) for c_ in pz.project(fr_idx[cs[i]]))
+                            res.bump("inversion3d_frontier_choice", cs[i])
+                            if got[i] != want or got[i] == (0, 0, 0) or got[i] not in target:
+                                viol(f"{name}: a uniform above the sum of the probabilities does not give the chosen frontier state of the grid",
+                                     u=seq[i], got=list(got[i]), choice=cs[i], chosen_frontier_state=list(want), max_storage=M, **ctx)
+                        elif got[i] == (0, 0, 0) or got[i] not in target:
+                            viol(f"{name} through the factory returns the origin or a state outside the grid", u=seq[i], got=list(got[i]), max_storage=M, **ctx)
+                        elif target[got[i]] == 0 and seq[i] == 0.0:
+                            viol(f"{name}: the uniform 0.0 is sent to a state of probability zero", finding="F-C02-6", u=seq[i], got=list(got[i]),
+                                 first_enumerated_state=list(got[i]) if got[i] == tuple(int(c_) for c_ in pz.project(0)) else None, probability_of_got="0", **ctx)
+                        elif target[got[i]] == 0:
+                            viol(f"{name} through the factory returns a zero-probability state", u=seq[i], got=list(got[i]), max_storage=M, **ctx)
+                outs.append(got)
+                smp0 = smp0 or s2
+            diff = [i for i in range(len(seq)) if outs[0][i] != outs[1][i]]
+            if diff:
+                i = diff[0]
+                viol(f"{name}: the state returned for a uniform depends on the earlier draws", max_storage=M, sequence=seq, index=i, choices=cs,
+                     first=list(outs[0][i]), second=list(outs[1][i]), **ctx)
+            sm = smp0.state_manager
+            tab = lst([f"({zl(st_)}, {qlit(pr)})" for st_, pr in sorted(target.items()) if pr])
+            draws = lst([f"({qlit(u_)}, {zlit(c_)}, {'true' if cl_ else 'false'}, {zl(o_)})" for u_, c_, cl_, o_ in rows])
+            frl = lst([zlit(int(ix)) for ix in sm.frontier_states_indices])
+            final_cum = lst([qlit(float(c_)) for c_ in smp0._cumulative_probabilities])
+            g_fac.append(f"({lst([zlit(n)] * 3)}, {zlit(L)}, {zlit(int(sm.max_frontier_indices))}, {tab}, {zlit(1_000_000 if M is None else M)}, "
+                         f"{draws}, {final_cum}, ({zlit(int(sm._last_projected_index))}, {zlit(int(sm._last_logged_index))}), {frl})")
+    groups.append(("inversion3d", "list Z * Z * Z * list (list Z * Q) * Z * list (Q * Z * bool * list Z) * list Q * (Z * Z) * list Z", "chk_invfac_f", g_fac))
+
+    # ---- rounded probabilities in d = 2 and d = 3: the exhaustion path on a FLOAT run (audit 5a A1: never observed in n-d before) ----
+    u = ulp_down(1.0)
+    for dim, (h, L, R) in [(2, (0.5, 1, 1)), (2, (0.5, 1, 2)), (2, (0.25, 3, 3)), (3, (0.5, 1, 1)), (3, (0.5, 1, 2))] + ([] if tier == "quick" else [(2, (0.25, 4, 2)), (3, (0.5, 2, 2))]):
+        n = L + R + 1
+        cells = [c for c in itertools.product(range(n), repeat=dim) if c != (L,) * dim]
+        ends = [c for c in cells if c[-1] in (0, n - 1)]
+        proc = None
+        for attempt in range(10 if dim == 2 else 4):         # tables are redrawn until the float sum ends below 1 - 2^-53 (else the last is kept)
+            lam_i = rng.choice([3, 5, 7])
+            tot = lam_i << 8                                 # total mass 3, 5 or 7: intensity not a power of two, mass / intensity is rounded
+            ints = _composition(rng, tot - len(ends), len(cells), zero_frac=0.3)
+            mass = {c: Fr(v + (1 if c in ends else 0), 1 << 8) for c, v in zip(cells, ints)}
+            ctx = dict(sampler=f"INVERSION-{dim}d", copula=f"table{dim}", h=h, left=L, right=R, masses=[[*(c_ - L for c_ in c), str(m)] for c, m in mass.items() if m])
+            mkr = lambda: build_table_chain_nd(h, L, R, mass, SM.INVERSION, dim=dim)
+            try:
+                proc, _ = mkr()
+                with ScriptedChoice():
+                    proc.sampling.sample_with_u(u)
+            except Exception as e:  # noqa
+                viol(f"factory / first draw raises {type(e).__name__} for a {dim}-d table-copula chain with SamplingMethod.INVERSION", error=str(e)[:200], **ctx)
+                proc = None
+                break
+            if float(proc.sampling._cumulative_probabilities[-1]) < u:
+                break
+        if proc is None:
+            continue
+        if Fr(float(proc.intensity_of_jumps)) != lam_i:
+            res.broke(f"{dim}-d rounded table chain intensity", f"{proc.intensity_of_jumps} != {lam_i}")
+            continue
+        s = proc.sampling
+        target = {tuple(c_ - L for c_ in c): m for c, m in mass.items()}
+        fr_idx = [int(ix) for ix in s.state_manager.frontier_states_indices]
+        if len(fr_idx) != 2 * n ** (dim - 1):
+            viol(f"INVERSION-{dim}d: the frontier deque does not hold the two end points of every line along the last axis", deque=fr_idx, **ctx)
+        fresh_at = {0, len(fr_idx) - 1, rng.randrange(len(fr_idx)), rng.randrange(len(fr_idx))}     # a fresh sampler at 2-4 positions, the warm one at all
+        for c in range(len(fr_idx)):
+            for smp in ((mkr()[0].sampling, s) if c in fresh_at else (s,)):
+                with ScriptedChoice() as ch:
+                    ch.c = c
+                    oc = tuple(int(x) for x in smp.sample_with_u(u))
+                top = float(smp._cumulative_probabilities[-1])
+                res.count(("float-sum-frontier-nd", dim, h, L, R, c, smp is s), kind=f"INVERSION-{dim}d at 1 - 2^-53 (rounded probabilities), frontier choice scripted")
+                res.bump(f"float_sum_nd_{dim}d", "u above the float sum" if top < u else "u at or below the float sum")
+                want = tuple(int(c_) for c_ in smp.state_manager.pairing.project(fr_idx[c]))
+                if ch.calls != (1 if top < u else 0):
+                    viol(f"INVERSION-{dim}d: the frontier draw is taken iff the uniform exceeds the float sum of the probabilities -- not so",
+                         u=u, float_sum=top, got=list(oc), choice=c, choice_calls=ch.calls, **ctx)
+                elif ch.calls and (oc != want or oc == (0,) * dim or oc not in target or want[-1] not in (-L, R)):
+                    viol(f"INVERSION-{dim}d: on exhaustion (rounded probabilities) the state returned is not the chosen frontier state of the grid",
+                         u=u, float_sum=top, got=list(oc), choice=c, chosen_frontier_state=list(want), **ctx)
+                elif oc == (0,) * dim or oc not in target or target[oc] == 0:
+                    viol(f"INVERSION-{dim}d: the uniform 1 - 2^-53 gives the origin, a zero-probability state or a state outside the grid (rounded probabilities)",
+                         u=u, float_sum=top, got=list(oc), choice=c, choice_calls=ch.calls, **ctx)
+
+
 def chain_nd_wide(res, rng, viol):
     """implementation-only oracle on wider n-d chains: Clayton copula in 2-d (tolerance), a 3-d independent-copula chain,
     larger grids in the thorough tier; INVERSION and BINARYSEARCHTREEADAPTED: law against mass(cell)/intensity of the
@@ -2147,7 +2300,7 @@ def chain_nd_wide(res, rng, viol):
 HEADER = r"""
 From Coq Require Import List ZArith QArith Qabs Bool.
 From RV Require Import Proofs.C02_Alias.
-From RV Require Import Base.QB Base.Corr Gen.GenPairing Model.Pairing Model.StepLaw Model.Bst Model.Alias Model.Huffman Model.Table Model.StatesManager Model.Inversion Model.BstAdapted Model.Factory Model.BstAdaptedNd Model.Stateful Model.Domain Model.InversionFrontier Model.InversionFrontierNd.
+From RV Require Import Base.QB Base.Corr Gen.GenPairing Model.Pairing Model.StepLaw Model.Bst Model.Alias Model.Huffman Model.Table Model.StatesManager Model.Inversion Model.BstAdapted Model.Factory Model.BstAdaptedNd Model.Stateful Model.Domain Model.InversionFrontier Model.InversionFrontierNd Model.InversionFrontierFactory.
 Import ListNotations.
 Open Scope Q_scope.
 
@@ -2276,6 +2429,21 @@ Definition chk_invnd_f (c : list Z * Z * Z * list (list Z * Q) * Z * list (Q * Z
       ok && qlist_eqb (i_cum st) final_cum && zpair_eqb (i_sm st) final_sm
   end.
 
+(* wave 8 -- the same with the enumeration the factory REALLY picks (Model/InversionFrontierFactory.v: Szudzik iff d = 2, Rosenberg-Strong
+   otherwise); used for the 3-d chains: deque in order, max_frontier_indices, every draw, final sums and StatesManager state *)
+Definition chk_invfac_f (c : list Z * Z * Z * list (list Z * Q) * Z * list (Q * Z * bool * list Z) * list Q * (Z * Z) * list Z) : bool :=
+  let '(sizes, o, F, tab, M, draws, final_cum, final_sm, fr) := c in
+  let proj := fac_project (length sizes) in
+  let outside := outsidend sizes o in
+  let prob := lookupn tab in
+  zlist_eqb fr (frfac sizes o) && Z.eqb F (maxffac sizes o) &&
+  match inv_init proj outside F prob with
+  | None => false
+  | Some st0 =>
+      let '(ok, st) := run_inv_f zl_eqb proj outside F prob M fr st0 draws in
+      ok && qlist_eqb (i_cum st) final_cum && zpair_eqb (i_sm st) final_sm
+  end.
+
 (* _pre_computation: the bucket list (itertools.product order) and which buckets are served from the cached axis vectors *)
 Definition chk_buckets (c : nat * Z * Z * list (list (Z * Z)) * list bool) : bool :=
   let '(dim, n, o, bks, flags) := c in
@@ -2309,6 +2477,7 @@ def correspond(res):
     chain_nd_table(res, rng, groups, viol)
     chain_nd_wide(res, rng, viol)
     chain_3d_table(res, rng, groups, viol)          # wave 6 (after the others: their random streams are unchanged)
+    chain_nd_inversion_factory(res, groups, viol)   # wave 8: own random stream
 
     # ---------- Coq side: the models must compute exactly what the implementation returned ----------
     from concurrent.futures import ThreadPoolExecutor
@@ -2392,8 +2561,18 @@ def _rerun_frontier_finding(r, kid):
 
 def matches_known(v, known):
     """a violation tagged with a recorded finding is accepted only if it IS that finding (witness class + the behaviour the
-    faithful model predicts); anything else carrying the tag is a new violation."""
+    faithful model predicts); anything else carrying the tag is a new violation.  NEVER raises (harness/common.py calls it without a
+    try/except): a record it cannot read is not the finding."""
+    try:
+        return bool(_matches_known(v, known))
+    except Exception:  # noqa
+        return False
+
+
+def _matches_known(v, known):
     r = v["replay"]
+    if not isinstance(r, dict):
+        return False
     if known["id"] == "F-C02-6":
         # only the right-closed samplers, only the uniform 0.0 exactly, only the first enumerated state, only if that state has
         # probability zero.  For alias / table / bst / huffman the same symptom contradicts C02_*_law: never matched.
@@ -2419,7 +2598,8 @@ def matches_known(v, known):
         fr = Fr(lam)
         rounded = not (fr.numerator & (fr.numerator - 1) == 0 and fr.denominator & (fr.denominator - 1) == 0)
         return (r.get("sampler") in ("BINARYSEARCHTREE", "HUFFMANNTREE") and rounded and isinstance(r.get("float_sum_of_probabilities"), float)
-                and r["float_sum_of_probabilities"] < 1.0 and r.get("u", 0.0) >= r["float_sum_of_probabilities"]
+                and isinstance(r.get("u"), float) and isinstance(r.get("got"), int) and not isinstance(r.get("got"), bool)
+                and r["float_sum_of_probabilities"] < 1.0 and r["float_sum_of_probabilities"] <= r["u"] < 1.0
                 and r.get("got") == r.get("last_inorder_leaf"))
     return False
 
